@@ -108,6 +108,12 @@ impl ProcessState {
             dbfile.push("db.sqlite3");
             dbfile
         };
+        // Two first invocations must not both decide to create the database (one
+        // would unlink the other's fresh file, or open it before its schema
+        // exists): hold the probe lock across the existence test and the
+        // start-up transaction.
+        let mut init_lock = Lock::new(lock_manager.clone(), 0);
+        init_lock.wait_lock(LockType::Exclusive)?;
         let must_create = !dbfile.exists();
         let mut db: Connection;
         {
@@ -205,6 +211,8 @@ impl ProcessState {
 
             tx.commit().map_err(RedoError::opaque_error)?;
         }
+        init_lock.unlock()?;
+        mem::drop(init_lock);
 
         Ok(ProcessState {
             db,
